@@ -301,8 +301,8 @@ structure Inv (inputs : List Nat) (stack : List Item) (st : St) : Prop where
   guards_entered : ∀ f, f ∈ st.guards → f ∈ st.entered
   reported_entered : ∀ f, f ∈ st.reported → f ∈ st.entered
   entered_why : ∀ f, f ∈ st.entered → f ∈ inputs ∨ f ∈ st.reported
-  inputs_pending : ∀ f, f ∈ inputs → f ∈ st.entered ∨ Item.input f ∈ stack
-  stack_inputs : ∀ f, Item.input f ∈ stack → f ∈ inputs
+  inputs_pending : ∀ f, f ∈ inputs → f ∈ st.entered ∨ ∃ m, Item.input m f ∈ stack
+  stack_inputs : ∀ m f, Item.input m f ∈ stack → f ∈ inputs
 
 theorem skipped_entered {inputs stack st} (h : Inv inputs stack st) {f : Nat}
     (hs : skipped st f = true) : f ∈ st.entered := by
@@ -311,15 +311,23 @@ theorem skipped_entered {inputs stack st} (h : Inv inputs stack st) {f : Nat}
   · exact h.once_entered f hs
   · exact h.guards_entered f hs
 
-theorem input_not_in_body (f d : Nat) (b : List Dir) : Item.input f ∉ b.map (Item.dir d) := by
+theorem skippedInput_entered {inputs stack st} (h : Inv inputs stack st) {m : Bool} {f : Nat}
+    (hs : skippedInput st m f = true) : f ∈ st.entered := by
+  cases m with
+  | false => exact skipped_entered h (by simpa [skippedInput] using hs)
+  | true =>
+    simp only [skippedInput, if_true, List.contains_iff_mem] at hs
+    exact h.guards_entered f hs
+
+theorem input_not_in_body (m : Bool) (f d : Nat) (b : List Dir) : Item.input m f ∉ b.map (Item.dir d) := by
   intro h; simp at h
 
 theorem inv_enter {inputs : List Nat} {cfg : Cfg} {st : St} {f : Nat} {rest : List Item} {hd : Item}
-    (rep : List Nat) (hrep : ∀ g ∈ rep, g = f)
+    (main : Bool) (rep : List Nat) (hrep : ∀ g ∈ rep, g = f)
     (h : Inv inputs (hd :: rest) st) (hf : f ∈ inputs ∨ f ∈ st.reported ++ rep)
-    (hhd : ∀ g, hd = Item.input g → g = f) :
+    (hhd : ∀ m g, hd = Item.input m g → g = f) :
     Inv inputs ((bodyOf cfg f).map (Item.dir (dirOf cfg f)) ++ rest)
-      (enterSt cfg { st with reported := st.reported ++ rep } f) := by
+      (enterSt cfg { st with reported := st.reported ++ rep } f main) := by
   refine ⟨?_, ?_, ?_, ?_, ?_, ?_⟩
   · intro g hg
     simp only [enterSt] at hg ⊢
@@ -349,36 +357,36 @@ theorem inv_enter {inputs : List Nat} {cfg : Cfg} {st : St} {f : Nat} {rest : Li
     · subst hg; simpa [List.mem_append] using hf
   · intro g hg
     simp only [enterSt, List.mem_append, List.mem_singleton]
-    rcases h.inputs_pending g hg with h1 | h1
+    rcases h.inputs_pending g hg with h1 | ⟨m, h1⟩
     · exact Or.inl (Or.inl h1)
     · simp only [List.mem_cons] at h1
       rcases h1 with h1 | h1
-      · exact Or.inl (Or.inr (hhd g h1.symm))
-      · exact Or.inr (Or.inr h1)
-  · intro g hg
+      · exact Or.inl (Or.inr (hhd m g h1.symm))
+      · exact Or.inr ⟨m, Or.inr h1⟩
+  · intro m g hg
     simp only [List.mem_append] at hg
     rcases hg with hg | hg
-    · exact absurd hg (input_not_in_body _ _ _)
-    · exact h.stack_inputs g (by simp [hg])
+    · exact absurd hg (input_not_in_body _ _ _ _)
+    · exact h.stack_inputs m g (by simp [hg])
 
 theorem inv_pop {inputs : List Nat} {st : St} {rest : List Item} {hd : Item} {extra : List Item}
     (h : Inv inputs (hd :: rest) st)
-    (hextra : ∀ g, Item.input g ∉ extra)
-    (hhd : ∀ g, hd = Item.input g → g ∈ st.entered) :
+    (hextra : ∀ m g, Item.input m g ∉ extra)
+    (hhd : ∀ m g, hd = Item.input m g → g ∈ st.entered) :
     Inv inputs (extra ++ rest) st := by
   refine ⟨h.once_entered, h.guards_entered, h.reported_entered, h.entered_why, ?_, ?_⟩
   · intro g hg
-    rcases h.inputs_pending g hg with h1 | h1
+    rcases h.inputs_pending g hg with h1 | ⟨m, h1⟩
     · exact Or.inl h1
     · simp only [List.mem_cons] at h1
       rcases h1 with h1 | h1
-      · exact Or.inl (hhd g h1.symm)
-      · exact Or.inr (by simp [h1])
-  · intro g hg
+      · exact Or.inl (hhd m g h1.symm)
+      · exact Or.inr ⟨m, by simp [h1]⟩
+  · intro m g hg
     simp only [List.mem_append] at hg
     rcases hg with hg | hg
-    · exact absurd hg (hextra g)
-    · exact h.stack_inputs g (by simp [hg])
+    · exact absurd hg (hextra m g)
+    · exact h.stack_inputs m g (by simp [hg])
 
 theorem inv_report {inputs : List Nat} {stack : List Item} {st : St} {f : Nat}
     (h : Inv inputs stack st) (hf : f ∈ st.entered) :
@@ -409,24 +417,24 @@ theorem run_inv (cfg : Cfg) (inputs : List Nat) :
     intro stack st st' hinv hrun
     match stack, hinv, hrun with
     | [], hinv, hrun => simp [run] at hrun; subst hrun; exact hinv
-    | .input f :: rest, hinv, hrun =>
+    | .input m f :: rest, hinv, hrun =>
       simp only [run] at hrun
       split at hrun
       · rename_i hs
         refine ih rest st st' ?_ hrun
         have := inv_pop (extra := []) hinv (by simp)
-          (by intro g hg; cases hg; exact skipped_entered hinv hs)
+          (by intro m' g hg; cases hg; exact skippedInput_entered hinv hs)
         simpa using this
       · refine ih _ _ st' ?_ hrun
-        have := inv_enter (cfg := cfg) [] (by simp) hinv (Or.inl (hinv.stack_inputs f (by simp)))
-          (by intro g hg; cases hg; rfl)
+        have := inv_enter (cfg := cfg) m [] (by simp) hinv (Or.inl (hinv.stack_inputs m f (by simp)))
+          (by intro m' g hg; cases hg; rfl)
         simpa using this
     | .dir d (.cond a body) :: rest, hinv, hrun =>
       simp only [run] at hrun
       refine ih _ st st' ?_ hrun
       apply inv_pop hinv
-      · intro g hg; cases a <;> simp at hg
-      · intro g hg; cases hg
+      · intro m g hg; cases a <;> simp at hg
+      · intro m g hg; cases hg
     | .dir d (.incl angle name) :: rest, hinv, hrun =>
       simp only [run] at hrun
       split at hrun
@@ -438,37 +446,38 @@ theorem run_inv (cfg : Cfg) (inputs : List Nat) :
           have hent : f ∈ st.entered := by
             apply skipped_entered hinv
             simpa [skipped] using hs
-          have := inv_pop (extra := []) hinv (by simp) (by intro g hg; cases hg)
+          have := inv_pop (extra := []) hinv (by simp) (by intro m g hg; cases hg)
           exact inv_report (by simpa using this) hent
         · refine ih _ _ st' ?_ hrun
-          exact inv_enter (cfg := cfg) [f] (by simp) hinv (Or.inr (by simp)) (by intro g hg; cases hg)
+          exact inv_enter (cfg := cfg) false [f] (by simp) hinv (Or.inr (by simp)) (by intro m g hg; cases hg)
 
 theorem mem_topItems (cwd : Nat) (tops : List Top) (f : Nat) :
-    Item.input f ∈ (tops.map (topItems cwd)).flatten ↔ Top.file f ∈ tops := by
+    (∃ m, Item.input m f ∈ (tops.map (topItems cwd)).flatten) ↔ ∃ m, Top.file m f ∈ tops := by
   induction tops with
   | nil => simp
   | cons t ts ih =>
-    simp only [List.map_cons, List.flatten_cons, List.mem_append, List.mem_cons, ih]
+    simp only [List.map_cons, List.flatten_cons, List.mem_append, List.mem_cons, exists_or, ih]
     cases t with
-    | file g => simp [topItems]
+    | file m' g =>
+      simp only [topItems, List.mem_singleton, Item.input.injEq, Top.file.injEq]
     | virt b => simp [topItems]
 
 theorem mem_commandLineOrder (inputs : List Nat) (virt : List (List Dir)) (f : Nat) :
-    Top.file f ∈ commandLineOrder inputs virt ↔ f ∈ inputs := by
+    (∃ m, Top.file m f ∈ commandLineOrder inputs virt) ↔ f ∈ inputs := by
   unfold commandLineOrder
   rcases List.eq_nil_or_concat inputs with rfl | ⟨l, m, rfl⟩
   · cases virt <;> simp
   · simp [List.getLast?_append]
 
 theorem mem_initial (cwd : Nat) (inputs : List Nat) (virt : List (List Dir)) (f : Nat) :
-    Item.input f ∈ initial cwd inputs virt ↔ f ∈ inputs := by
+    (∃ m, Item.input m f ∈ initial cwd inputs virt) ↔ f ∈ inputs := by
   unfold initial; rw [mem_topItems, mem_commandLineOrder]
 
 theorem inv_initial (cwd : Nat) (inputs : List Nat) (virt : List (List Dir)) :
     Inv inputs (initial cwd inputs virt) {} := by
   refine ⟨by simp, by simp, by simp, by simp, ?_, ?_⟩
   · intro f hf; right; exact (mem_initial cwd inputs virt f).mpr hf
-  · intro f hf; exact (mem_initial cwd inputs virt f).mp hf
+  · intro m f hf; exact (mem_initial cwd inputs virt f).mp ⟨m, hf⟩
 
 /-- **deps = files read.**  Under the modelled libclang contract (`run`: one inclusion directive
     reported, with its resolved file, for every `#include` processed in an active region — also
@@ -484,7 +493,7 @@ theorem deps_eq_filesRead (cfg : Cfg) (fuel cwd : Nat) (inputs : List Nat) (virt
   simp only [depsRecorded, filesRead, List.mem_append]
   constructor
   · rintro (hf | hf)
-    · rcases inv.inputs_pending f hf with h1 | h1
+    · rcases inv.inputs_pending f hf with h1 | ⟨m, h1⟩
       · exact h1
       · simp at h1
     · exact inv.reported_entered f hf
